@@ -144,6 +144,7 @@ func checkC20(c *Ctx) {
 	c.Clause("Close closes the connection it is given on every path")
 	c.Clause("the reverse proxy receives the client's own request (its context), so nothing but the peers ends an upgraded connection")
 	c.Clause("Shutdown closes every idle connection of every pool under both locks and replaces the pool map")
+	c.Clause("staleness is judged against a clock read taken with the pool lock held (time spent waiting for the lock counts)")
 	c.NotDecided("byte-exact relaying (inside net/http/httputil); pool histories against a reference model")
 
 	ws := c.wrappers()
@@ -392,6 +393,7 @@ func checkC19(c *Ctx) {
 	c.Clause("every healthCheckWg.Add runs in a goroutine that Stop joins through the same WaitGroup (or before any goroutine exists)")
 	c.Clause("Stop performs only idempotent operations and holds no lock across Wait")
 	c.Clause("pool shutdown closes every idle connection it holds")
+	c.Clause("the shutdown deadline derives from a live context (not the cancelled signal context); signal handling stays installed until the drain is over (a second signal does not kill the process mid-drain); no lock that probes or Stop need is held across a write to a client")
 	c.NotDecided("that shutdown finishes within the configured time; completion of in-flight requests (net/http); signal delivery")
 
 	stop := p.Fn("internal/loadbalancer", "LoadBalancer", "Stop")
@@ -917,6 +919,8 @@ func checkC03(c *Ctx) {
 	c.Clause("every lock is released on every exit; no may-panic call (ReverseProxy.ServeHTTP, handlers, callbacks) runs between a non-deferred Lock and its Unlock")
 	c.Clause("the in-flight gauge taken in proxyRequest is released on panic exits too")
 	c.Clause("every http.Server / http.Transport / net.Dialer / http.Client literal sets its timeouts to a non-zero value, with a zero-default guard where configuration may be 0")
+	c.Clause("every option of server.timeouts flows into a timeout that is set on a server, transport, dialer, handler or context (an option that is only validated bounds nothing)")
+	c.Clause("a failed exchange counts towards passive ejection only when its client had not gone away (test of the served request's context): hang-ups do not eject a healthy backend")
 	c.Clause("panics from forwarding are counted and re-raised by CircuitBreaker.Execute, not swallowed")
 	c.Clause("the response-writer wrappers a request is served through are created (or fully re-initialised) per request and their buffers start empty, so a response aborted mid-body cannot leak into a later one")
 	c.NotDecided("latency bounds; goroutine counts; that the request after a fault succeeds; behaviour of net/http under malformed input")
@@ -968,6 +972,8 @@ func checkC03(c *Ctx) {
 	c.abortPropagates()
 	c.goroutinesCannotCrash()
 	c.timeoutsConfigured()
+	c.timeoutOptionsApplied()
+	c.passiveThreshold()
 	ws := c.wrappers()
 	c.Floor("wrapper-fresh-per-request", len(ws), 4, "ResponseWriter wrappers")
 	for _, w := range ws {
@@ -1042,6 +1048,139 @@ func (c *Ctx) timeoutsConfigured() {
 		})
 	}
 	c.Floor("timeouts-configured", n, 5, "server/transport/dialer/client literals")
+}
+
+// timeoutOptionsApplied: "every affected request ends within the configured backend/server
+// timeouts" presupposes that a configured timeout bounds something.  For every field of
+// config.TimeoutConfig some read of it must flow — through conversions and arithmetic only, not
+// through a comparison (validation) or an interface (logging, error text) — into a stored field, a
+// call argument or a result.  A field whose every read ends in comparisons and messages is an
+// option that is connected to nothing.
+func (c *Ctx) timeoutOptionsApplied() {
+	p := c.P
+	tc := p.Named("internal/config", "TimeoutConfig")
+	if tc == nil {
+		c.Missing("timeout-option-applied", "config.TimeoutConfig")
+		return
+	}
+	st, _ := tc.Underlying().(*types.Struct)
+	if st == nil {
+		c.Missing("timeout-option-applied", "config.TimeoutConfig")
+		return
+	}
+	type use struct {
+		applied bool
+		where   string
+		reads   int
+	}
+	uses := map[string]*use{}
+	var flows func(v ssa.Value, seen map[ssa.Value]bool, depth int) bool
+	flows = func(v ssa.Value, seen map[ssa.Value]bool, depth int) bool {
+		if seen[v] || depth > 12 || v.Referrers() == nil {
+			return false
+		}
+		seen[v] = true
+		for _, r := range *v.Referrers() {
+			switch x := r.(type) {
+			case *ssa.Convert:
+				if flows(x, seen, depth+1) {
+					return true
+				}
+			case *ssa.ChangeType:
+				if flows(x, seen, depth+1) {
+					return true
+				}
+			case *ssa.Phi:
+				if flows(x, seen, depth+1) {
+					return true
+				}
+			case *ssa.BinOp:
+				switch x.Op {
+				case token.MUL, token.ADD, token.SUB, token.QUO:
+					if flows(x, seen, depth+1) {
+						return true
+					}
+				}
+			case *ssa.Store:
+				if x.Val == v {
+					if _, toField := x.Addr.(*ssa.FieldAddr); toField {
+						return true
+					}
+					// a local cell: follow its loads
+					if a, isAlloc := x.Addr.(*ssa.Alloc); isAlloc && a.Referrers() != nil {
+						for _, u := range *a.Referrers() {
+							if l, isLoad := u.(*ssa.UnOp); isLoad && l.Op == token.MUL && flows(l, seen, depth+1) {
+								return true
+							}
+						}
+					}
+				}
+			case *ssa.Return:
+				return true
+			case ssa.CallInstruction:
+				for _, a := range x.Common().Args {
+					if a == v {
+						return true
+					}
+				}
+			}
+		}
+		return false
+	}
+	for _, fn := range p.Funcs {
+		if !p.InScope(fn) {
+			continue
+		}
+		instrsOf(fn, func(in ssa.Instruction) {
+			v, isVal := in.(ssa.Value)
+			if !isVal {
+				return
+			}
+			fr, ok := fieldRefOf(v)
+			if !ok || fr.Struct == nil || !types.Identical(fr.Struct, tc) {
+				return
+			}
+			u := uses[fr.Name]
+			if u == nil {
+				u = &use{}
+				uses[fr.Name] = u
+			}
+			u.reads++
+			var val ssa.Value = v
+			if fa, isFA := in.(*ssa.FieldAddr); isFA {
+				val = nil
+				if fa.Referrers() != nil {
+					for _, r := range *fa.Referrers() {
+						if l, isLoad := r.(*ssa.UnOp); isLoad && l.Op == token.MUL {
+							if flows(l, map[ssa.Value]bool{}, 0) && !u.applied {
+								u.applied, u.where = true, p.FuncKey(fn)
+							}
+						}
+					}
+				}
+			}
+			if val != nil && flows(val, map[ssa.Value]bool{}, 0) && !u.applied {
+				u.applied, u.where = true, p.FuncKey(fn)
+			}
+		})
+	}
+	n := 0
+	for i := 0; i < st.NumFields(); i++ {
+		name := canonFieldName(tc, st.Field(i).Name())
+		construct := "config.TimeoutConfig." + name
+		n++
+		u := uses[name]
+		switch {
+		case u != nil && u.applied:
+			c.Pass("timeout-option-applied", construct, p.Pos(st.Field(i).Pos()), "flows into a timeout that is set or passed on in "+u.where)
+		case u == nil:
+			c.Fail("timeout-option-applied", construct, p.Pos(st.Field(i).Pos()), "the option is never read: whatever is configured bounds nothing")
+		default:
+			c.Fail("timeout-option-applied", construct, p.Pos(st.Field(i).Pos()),
+				fmt.Sprintf("the option is read %d time(s) but only compared or printed (validation): it is applied to no server, transport, dialer, handler or context, so nothing ends when it expires", u.reads))
+		}
+	}
+	c.Floor("timeout-option-applied", n, 8, "timeout options")
 }
 
 // nzBind binds the parameters of a helper to the arguments of the call site it is analysed for.
